@@ -24,7 +24,7 @@ for (w, n) in ((13, 5), (64, 2), (1, 7), (7, 0), (33, 4)):
          desc='library -> document: IntVector %dx%d decodes to the same items' % (w, n), shape={'width': w, 'len': n})
     inst(P, 'c07_doc_to_int_w%d_n%d' % (w, n), 'c07::doc_to_int(%d, %d)' % (w, n), tier='quick' if (w, n) in ((13, 5),) else 'thorough', unwind=U, unwindset=base_uw(), cap=600,
          desc='document -> library: an IntVector file written from the document rules loads to the same items', shape={'width': w, 'len': n})
-for (l, mask, tier) in ((65, 0, 'quick'), (65, 1, 'quick'), (2, 7, 'deep'), (0, 0, 'thorough'), (7, 6, 'deep'), (130, 1, 'thorough')):
+for (l, mask, tier) in ((65, 0, 'quick'), (65, 1, 'quick'), (2, 7, 'deep'), (0, 0, 'thorough'), (7, 6, 'deep'), (130, 1, 'deep')):
     uwd = base_uw(select_unwindset(l))
     inst(P, 'c07_bitvector_to_doc_l%d_m%d' % (l, mask), 'c07::bitvector_to_doc(%d, %d)' % (l, mask), tier=tier, unwind=U, unwindset=uwd, stubs=ALLOC if mask & 6 else [], cap=900, mem=12,
          desc='library -> document: BitVector %d bits with supports %d: ones, raw bitvector, three optionals whose lengths account for the whole file' % (l, mask), shape={'len': l, 'supports': mask})
@@ -77,7 +77,7 @@ for (n, maxv, tier) in ((3, 1, 'quick'), (4, 2, 'thorough'), (5, 5, 'thorough'))
     for fw in sorted(feasible_fw(n, maxv)):
         d = wm_uw(n, width)
         d.update(base_uw())
-        inst(P, 'c07_wm_to_doc_n%d_max%d_fw%d' % (n, maxv, fw), 'c07::wm_to_doc(%d, %d, %d)' % (n, maxv, fw), tier=tier, unwind=U, unwindset=d, stubs=['bvspec'], cap=900, mem=12,
+        inst(P, 'c07_wm_to_doc_n%d_max%d_fw%d' % (n, maxv, fw), 'c07::wm_to_doc(%d, %d, %d)' % (n, maxv, fw), tier=tier if n == 3 else 'deep', unwind=U, unwindset=d, stubs=['bvspec'], cap=900, mem=12,
              desc='library -> document: WaveletMatrix serializes as len, width, one bitvector per level (stable partition order), first[] at its minimal width', shape={'len': n, 'max_value': maxv, 'first_width': fw})
         inst(P, 'c07_doc_to_wm_n%d_max%d_fw%d' % (n, maxv, fw), 'c07::doc_to_wm(%d, %d, %d)' % (n, maxv, fw), tier='deep', unwind=U, unwindset=d, stubs=['bvspec'], cap=1200, cap_thorough=3600, mem=30,
              desc='document -> library: a WaveletMatrix file written from the document rules (no supports) loads; get and rank exact', shape={'len': n, 'max_value': maxv, 'first_width': fw})
